@@ -269,6 +269,15 @@ def r3r4(fb, chk, tag):
                     c = callee_of(t)
                     if c and (c.get("self_adt") or "").endswith("::FrontendInternal"):
                         seq.append((c["name"], bb))
+            # a reply receiver's result is not thrown away: a success of the method lies on a path where the receive succeeded
+            # (its failure left through `?`) or hands the receive's own result back
+            for nm, bb in seq:
+                if nm in RECV_NAMES:
+                    rc = sym0.call_at(bb)
+                    used = any(a[0] == "ok" and isinstance(a[1], tuple) and any(s_ == rc for s_ in subterms(a[1])) for a in o.atoms) or \
+                        any(s_ == rc for s_ in subterms(o.ret))
+                    if not used and okness(fb, o.ret) is True:
+                        probs.add("a success path ignores the result of %s (a failed or missing reply is reported as success)" % nm)
             for i, (nm, bb) in enumerate(seq):
                 if nm.startswith("send_"):
                     args = sym0.arg_terms(bb)
@@ -381,7 +390,11 @@ def r3_typed(fb, chk, code, row, f, outs, sym, key):
                         return True
                 if a[0] == "cmp" and a[1] == op:
                     for x, y in ((a[2], a[3]), (a[3], a[2])):
-                        if lsub in show(x):
+                        xs = x
+                        while xs[0] in ("ref", "deref") or (xs[0] == "cast" and xs[4] == "IntToInt" and xs[2] == xs[3]):
+                            xs = xs[1]
+                        # the WHOLE status word is compared: not a masked, shifted or narrowed part of it
+                        if lsub in show(x) and not (xs[0] in ("bin", "un", "cast")):
                             if rconst is not None and const_eval(fb, sym, y) == rconst:
                                 return True
                             if rsub is not None and rsub in show(y):
